@@ -42,12 +42,14 @@ const (
 	vkAddrGOld = "192.0.2.40"
 	vkAddrCNew = "192.0.2.50"
 
-	vkOldA   = "10.0.0.1" // www.c.p. at the old child
-	vkOldGA  = "10.0.0.2" // www.g.c.p. at the old grandchild
-	vkNewA   = "10.9.9.9" // www.c.p. at the re-pointed child (marker)
-	vkRecTTL = 3600       // every record TTL: only a lease can end things early
-	vkGhost  = "ghost.c.p."
-	vkNSB    = "nsb.c.p." // second, glue-less NS host of the "twons" behaviour
+	vkOldA    = "10.0.0.1" // www.c.p. at the old child
+	vkOldGA   = "10.0.0.2" // www.g.c.p. at the old grandchild
+	vkNewA    = "10.9.9.9" // www.c.p. at the re-pointed child (marker)
+	vkNewLate = "10.9.9.8" // late.c.p., a name that exists ONLY at the re-pointed child (the old child denies it)
+	vkRecTTL  = 3600       // every record TTL: only a lease can end things early
+	vkGhost   = "ghost.c.p."
+	vkNSB     = "nsb.c.p." // second, glue-less NS host of the "twons" behaviour
+	vkLate    = "late.c.p."
 )
 
 const (
@@ -164,7 +166,9 @@ func vkUniverse(phase int, signed bool) *zonemodel.Universe {
 	u := zonemodel.NewUniverse("c08")
 	u.AddZone(zonemodel.ZoneSpec{Apex: ".", Mode: mode, Alg: alg, NSAddr: "192.0.2.1", TTL: vkRecTTL})
 	p := u.AddZone(zonemodel.ZoneSpec{Apex: vkZoneP, Mode: mode, Alg: alg, CSK: true, NSAddr: "192.0.2.20", TTL: vkRecTTL})
-	p.Add("www A 10.0.0.9")
+	// aliases INTO the leased zone, published by the stable parent zone in every phase: a reply for a name below
+	// alias.p. (DNAME) or for cn.p. / cnx.p. (CNAME) is composed of p.'s records and of what the c.p. servers say
+	p.Add("www A 10.0.0.9", "alias DNAME "+vkZoneC, "cn CNAME www."+vkZoneC, "cnx CNAME "+vkLate)
 	// the socket of the future c.p. server exists from the start (its zone "alt." is never asked for)
 	alt := zonemodel.ZoneSpec{Apex: "alt.", Mode: zonemodel.Unsigned, Server: vkSrvCNew, NSAddr: vkAddrCNew, TTL: vkRecTTL}
 	switch phase {
@@ -176,7 +180,7 @@ func vkUniverse(phase int, signed bool) *zonemodel.Universe {
 		u.AddZone(alt)
 	case vkPhaseRepointed:
 		c := u.AddZone(zonemodel.ZoneSpec{Apex: vkZoneC, Mode: mode, Alg: alg, CSK: true, Server: vkSrvCNew, NSHost: "ns2.c.p.", NSAddr: vkAddrCNew, TTL: vkRecTTL})
-		c.Add("www A " + vkNewA)
+		c.Add("www A "+vkNewA, "late A "+vkNewLate)
 	case vkPhaseWithdrawn:
 		u.AddZone(alt)
 	}
@@ -369,7 +373,7 @@ func vkA(name, addr string, ttl uint32) *dns.A {
 
 // reset returns resolver, cache, simulation, clock and reference to the cold state.
 func (w *vkWorld) reset(cfg vkCfg) {
-	w.waitIdle(nil)
+	w.waitIdle()
 	w.pl.Reset()
 	vtime.SetOffset(0)
 	w.mu.Lock()
@@ -385,13 +389,21 @@ func (w *vkWorld) reset(cfg vkCfg) {
 // hit) synchronously on the hit path, before the client's reply is written, and the claim is released by the worker's
 // last deferred call — after the refreshed entry and its side effects (denial proofs, subtree cuts) are stored. hit is
 // the pre-ask handle of the entry the ask could hit (nil = none).
-func (w *vkWorld) waitIdle(hit any) bool {
+func (w *vkWorld) waitIdle(hits ...any) bool {
 	if !w.key.prefetch {
 		return true
 	}
+	claimed := func() bool {
+		for _, hit := range hits {
+			if hit != nil && cache.VerifC08Claimed(hit) {
+				return true
+			}
+		}
+		return false
+	}
 	deadline := time.Now().Add(7 * time.Second) // beyond the refresh worker's own 5 s bound
 	for spin := 0; ; spin++ {
-		if !(hit != nil && cache.VerifC08Claimed(hit)) && !cache.VerifC08PrefetchBusy(w.pl.Cache()) {
+		if !claimed() && !cache.VerifC08PrefetchBusy(w.pl.Cache()) {
 			return true
 		}
 		if spin < 2000 {
